@@ -363,3 +363,62 @@ STATS = {}
 
 def nontrivial(c, o):
     return "err" not in o
+
+
+def translate(ctx):
+    """by ast: the column pattern `remesh.subdivide` stacks into the child faces and the column order in which
+    `geometry.faces_to_edges` lists the edges of a face (which midpoint `mid_idx[:, k]` is)"""
+    import ast
+    import os
+    tree = ast.parse(open(os.path.join(common.REPO, "trimesh/remesh.py")).read())
+    fn = next((f for f in tree.body if isinstance(f, ast.FunctionDef) and f.name == "subdivide"), None)
+    if fn is None:
+        raise common.Broken("translate", "remesh.py: subdivide not found")
+    pattern = None
+    for st in ast.walk(fn):
+        if isinstance(st, ast.Assign) and ast.unparse(st.targets[0]) == "f" and "column_stack" in ast.unparse(st.value):
+            call = st.value
+            while isinstance(call, ast.Call) and not (isinstance(call.func, ast.Attribute) and call.func.attr == "column_stack"):
+                call = call.func.value if isinstance(call.func, ast.Attribute) else None
+            if call is None or not call.args or not isinstance(call.args[0], (ast.List, ast.Tuple)):
+                raise common.Broken("translate", "remesh.subdivide: column_stack of a literal list expected")
+            pattern = []
+            for e in call.args[0].elts:
+                src = ast.unparse(e)
+                for arr, kind in (("faces_subset", "false"), ("mid_idx", "true")):
+                    if src.startswith(arr + "[:, ") and src.endswith("]"):
+                        pattern.append((kind, int(src[len(arr) + 4:-1])))
+                        break
+                else:
+                    raise common.Broken("translate", f"remesh.subdivide: unexpected column {src}")
+            tail = ast.unparse(st.value)
+            if not tail.endswith(".reshape((-1, 3))"):
+                raise common.Broken("translate", "remesh.subdivide: child faces no longer reshaped to (-1, 3)")
+    if pattern is None:
+        raise common.Broken("translate", "remesh.subdivide: assignment of the stacked child faces not found")
+    src = ast.unparse(fn)
+    if "mid_idx = inverse.reshape((-1, 3)) + len(vertices)" not in src or \
+            "edges = np.sort(faces_to_edges(faces_subset), axis=1)" not in src:
+        raise common.Broken("translate", "remesh.subdivide: midpoint indexing changed (edges / mid_idx)")
+    gtree = ast.parse(open(os.path.join(common.REPO, "trimesh/geometry.py")).read())
+    gfn = next((f for f in gtree.body if isinstance(f, ast.FunctionDef) and f.name == "faces_to_edges"), None)
+    cols = None
+    for st in ast.walk(gfn) if gfn is not None else []:
+        if isinstance(st, ast.Assign) and ast.unparse(st.targets[0]) == "edges":
+            s_ = ast.unparse(st.value)
+            if s_.startswith("faces[:, [") and s_.endswith("]].reshape((-1, 2))"):
+                cols = [int(x) for x in s_[len("faces[:, ["):-len("]].reshape((-1, 2))")].split(",")]
+    if cols is None:
+        raise common.Broken("translate", "geometry.faces_to_edges: edge column list not found")
+    L = ["-- GENERATED by harness/props/C18.py from /repo/trimesh/remesh.py and geometry.py (ast) -- do not edit",
+         "namespace TV.Generated.C18",
+         "/-- columns stacked into the child faces by `subdivide`: (taken from `mid_idx`?, column) -/",
+         "def childPattern : List (Bool × Nat) := [" + ", ".join(f"({k}, {c_})" for k, c_ in pattern) + "]",
+         "/-- `faces_to_edges`: the face columns listed as edge end points, pair by pair -/",
+         "def edgeColumns : List Nat := [" + ", ".join(str(c_) for c_ in cols) + "]",
+         "end TV.Generated.C18"]
+    return {"C18Table.lean": "\n".join(L) + "\n"}
+
+
+def generated_obligations():
+    return 1
